@@ -54,6 +54,8 @@ struct Scenario {
     long_existing: bool,
     /// an existing output file has exactly the length of the new output but other content
     same_length_existing: bool,
+    /// an existing output file is empty (e.g. made by touch / mktemp)
+    empty_existing: bool,
     /// after a successful run into a file, run again into the same file with changed options
     rerun: bool,
     /// 0: `--opt=value`, 1: `--opt value`, 2: `-o value`
@@ -108,6 +110,7 @@ fn decode(tapes: &Tapes) -> Scenario {
     let arg_style = m.choose(3);
     let odd_names = m.chance(90);
     let same_length_existing = m.chance(90);
+    let empty_existing = m.chance(50);
     let rerun = m.chance(110);
     let mut t = Tape::new(&tapes.a);
     let mut dom = Domain::general();
@@ -130,7 +133,7 @@ fn decode(tapes: &Tapes) -> Scenario {
         InputKind::Empty => input = m.pick(&["", " ", "<!-- c -->", "text only"]).as_bytes().to_vec(),
         _ => {}
     }
-    Scenario { input_kind, input, parser, parser_short, derive, sort, output, args_first, long_existing, arg_style, odd_names, same_length_existing, rerun }
+    Scenario { input_kind, input, parser, parser_short, derive, sort, output, args_first, long_existing, arg_style, odd_names, same_length_existing, empty_existing, rerun }
 }
 
 fn describe(s: &Scenario) -> Value {
@@ -174,7 +177,9 @@ fn run(s: &Scenario, dir: &Path) -> Result<(), String> {
         (true, Ok(r)) => Some(vec![b'#'; HEADER.len() + r.len()]),
         _ => None,
     };
-    let old_content: Vec<u8> = if let Some(g) = same_len {
+    let old_content: Vec<u8> = if s.empty_existing {
+        Vec::new()
+    } else if let Some(g) = same_len {
         g
     } else if s.long_existing { b"// previous content of the output file\n".repeat(400) } else { b"// previous content\n".to_vec() };
     let old: &[u8] = &old_content;
@@ -368,6 +373,12 @@ impl Property for C12 {
         st.count(&format!("parser.{}", s.parser.unwrap_or("default")));
         st.count(&format!("sort.{}", s.sort.unwrap_or("default")));
         st.count(if s.derive.is_some() { "derive.given" } else { "derive.default" });
+        if s.output == OutputKind::ExistingFile && s.empty_existing {
+            st.count("output.ExistingFile.empty");
+            if !matches!(s.input_kind, InputKind::Valid) {
+                st.count("output.ExistingFile.empty_and_input_at_fault");
+            }
+        }
         if s.odd_names {
             st.count("file_names_with_blanks_and_non_ascii");
         }
@@ -397,7 +408,7 @@ impl Property for C12 {
         Ok(())
     }
     fn rule(&self) -> String {
-        "one process run of the freshly built CLI per case: input file in {generated valid document, byte-damaged UTF-8 document, non-UTF-8, missing, a directory, element-less} x --parser/-p in {default, quick-xml-de, serde-xml-rs} x --derive=<string from a list incl. empty, leading dashes, unicode, newline, shell metacharacters> or default x --sort in {default, unsorted, name} x output in {stdout, new file, existing file (short, 15 KB and thus longer than the new output, or garbage of exactly the new output's length), path in a missing directory, path that is a directory, path below a regular file}, options before or after the positional arguments, written as `--opt=value`, `--opt value` or `-o value`, file names plain or with blanks and non-ASCII characters. Four in ten successful file outputs are followed by a second run into the same file with the other sort order and a permuted derive list (often the same output length). Oracle: success = exit 0 and stdout (plus newline) or file bytes equal header + in-process library rendering with the mapped options, stdout empty when a file is named; failure = exit 1, empty stdout, non-empty stderr, named output untouched when the input was at fault. Non-trivial = any non-default option, an output file or a fault; distinct by hash of input bytes and arguments.".into()
+        "one process run of the freshly built CLI per case: input file in {generated valid document, byte-damaged UTF-8 document, non-UTF-8, missing, a directory, element-less} x --parser/-p in {default, quick-xml-de, serde-xml-rs} x --derive=<string from a list incl. empty, leading dashes, unicode, newline, shell metacharacters> or default x --sort in {default, unsorted, name} x output in {stdout, new file, existing file (empty, short, 15 KB and thus longer than the new output, or garbage of exactly the new output's length), path in a missing directory, path that is a directory, path below a regular file}, options before or after the positional arguments, written as `--opt=value`, `--opt value` or `-o value`, file names plain or with blanks and non-ASCII characters. Four in ten successful file outputs are followed by a second run into the same file with the other sort order and a permuted derive list (often the same output length). Oracle: success = exit 0 and stdout (plus newline) or file bytes equal header + in-process library rendering with the mapped options, stdout empty when a file is named; failure = exit 1, empty stdout, non-empty stderr, named output untouched when the input was at fault. Non-trivial = any non-default option, an output file or a fault; distinct by hash of input bytes and arguments.".into()
     }
     fn assumptions(&self) -> Vec<String> {
         vec![
@@ -420,7 +431,8 @@ impl Property for C12 {
             ("output.NewFile", 300),
             ("output.ExistingFile", 300),
             ("output.ExistingFile.longer_than_new_output", 60),
-            ("output.ExistingFile.same_length_other_content", 60),
+            ("output.ExistingFile.same_length_other_content", 40),
+            ("output.ExistingFile.empty_and_input_at_fault", 20),
             ("second_run_into_same_file", 150),
             ("output.MissingDir", 50),
             ("output.IsDirectory", 50),
